@@ -106,14 +106,9 @@ impl SetUsize {
 
 impl std::iter::FromIterator<usize> for SetUsize {
     fn from_iter<I: IntoIterator<Item = usize>>(iter: I) -> Self {
-        let iter = iter.into_iter();
-        // FIXME: It would be nice to cleverly allocate with the right capacity.
-        // let (sz,_) = iter.size_hint();
-        let mut c = SetUsize::new();
-        for i in iter {
-            c.insert(i);
-        }
-        c
+        // Collect through the underlying set, which sorts the items first: a set that
+        // fits the inline or dense representation then gets it whatever the order.
+        SetUsize(iter.into_iter().map(|x| x as Item).collect())
     }
 }
 
